@@ -95,7 +95,7 @@ def check_bins(res, x, y, fs, cfg, mode, idxs, viol, where):
         XY = complex(res.XY[j])
         for name, a, b, bud in (("XX", float(res.XX[j]), ref["XX"], bx), ("YY", float(res.YY[j]), ref["YY"], by),
                                 ("ReXY", XY.real, ref["XY"].real, bxy), ("ImXY", XY.imag, ref["XY"].imag, bxy),
-                                ("M2", float(res.M2[j]), ref["M2"], b4)):
+                                ("M2", float(res.M2[j]), ref["M2"], tol.budget_m2(bxy if y is not None else bx, ref["M2"], b4))):
             if not (abs(a - b) <= bud):
                 viol.append(V("bin_ne_reference", where=where, stat=name, got=a, ref=b, budget=bud, bin=int(j), L=L,
                               K=len(D), f=f, order=cfg["order"], backend=cfg["backend"], win=cfg["win"], sched=cfg["scheduler"]))
